@@ -163,6 +163,11 @@ Proof. intros H. apply star_scan_fixed. eapply star_scan_shape; eauto. Qed.
 
 (* ---------------------------------------------------------------------------------------------- *)
 (* a loaded value is a fixed point of its own rule: read back explicitly, or (when zero and omitted) read back as absent *)
+Ltac inv H := inversion H; subst; clear H.
+(* one level of case analysis on a value: the shapes the rules distinguish *)
+Ltac case_val v := destruct v as [ | [|] | [|?|?] | [|? ?] | [|? ?] | ? | | ].
+Ltac fin := red; simpl in *; repeat split; intros; simpl in *; try discriminate; try congruence; auto.
+
 Section Stable.
 Variable pp' : string -> bool.
 
@@ -170,11 +175,6 @@ Definition absorbs (lr : lrule) (k : kind) (om : bool) (d v : val) : Prop :=
   apply_rule lr k pp' d v = Some v
   /\ (om = true -> is_zero v = true -> is_dur k = false -> apply_rule lr k pp' d VNone = Some v)
   /\ well_typed k v = true /\ v <> VBad.
-
-Ltac inv H := inversion H; subst; clear H.
-(* one level of case analysis on a value: the shapes the rules distinguish *)
-Ltac case_val v := destruct v as [ | [|] | [|?|?] | [|? ?] | [|? ?] | ? | | ].
-Ltac fin := unfold absorbs; simpl in *; repeat split; intros; simpl in *; try discriminate; try congruence; auto.
 
 (* scalar rules: the default d has the member's type *)
 Lemma absorbs_scalar lr k om d jv v pp :
@@ -279,7 +279,6 @@ Proof.
 Qed.
 End Stable.
 
-Ltac inv H := inversion H; subst; clear H.
 
 Definition sv_always (k : kind) (om : bool) (v : val) : val := if om && is_zero v && negb (is_dur k) then VNone else v.
 
@@ -462,3 +461,170 @@ Proof.
   - now rewrite VV.
   - eapply Forall2_imp; [|exact ST]. intros f v [A [_ B]]. auto.
 Qed.
+
+(* ---------------------------------------------------------------------------------------------- *)
+(* every setting of a well-formed document is in the loaded configuration *)
+Lemma apply_fields_exact fs : forall j c,
+  (forall f, In f fs -> is_bad (jval (fname f) j) = false) ->
+  apply_fields fs (map fdef fs) j [] = Some c ->
+  Forall2 (fun f v => apply_rule (fload f) (fkind f) (fun p => jhas p j) (fdef f) (jval (fname f) j) = Some v) fs c.
+Proof. induction fs as [|f r IH]; intros j c NB H.
+  - simpl in H. inversion H. constructor.
+  - simpl in H. rewrite (NB f) in H by now left.
+    assert (E : exists x c', apply_rule (fload f) (fkind f) (fun p => jhas p j) (fdef f) (jval (fname f) j) = Some x
+                              /\ apply_fields r (map fdef r) j [] = Some c' /\ c = x :: c').
+    { destruct (soft_group (fload f)); simpl in H;
+      destruct (apply_rule _ _ _ _ _) as [x|]; try discriminate H;
+      apply option_map_cons_some in H; destruct H as [c' [E ->]]; eauto. }
+    destruct E as [x [c' [A [R ->]]]]. constructor; [exact A|].
+    apply IH; auto. intros g Hg. apply NB. now right. Qed.
+
+Lemma cget_from_in (P : field -> val -> Prop) fs : forall c,
+  NoDup (map fname fs) -> Forall2 P fs c -> forall f, In f fs -> P f (cget_from fs c (fname f)).
+Proof. induction fs as [|g r IH]; intros c ND F f Hf; [destruct Hf|].
+  inversion F as [|? v ? cr Pg F']; subst. inversion ND as [|? ? Hnin ND']; subst. simpl.
+  destruct Hf as [->|Hf].
+  - now rewrite String.eqb_refl.
+  - destruct (String.eqb_spec (fname f) (fname g)) as [E|N].
+    + exfalso. apply Hnin. rewrite <- E. now apply in_map.
+    + apply IH; auto. Qed.
+
+(* the rule of a setting takes the document's value *)
+Lemma rule_faithful lr sr k d v x pp :
+  cfg_typed k d = true ->
+  match lr, sr with
+  | LAlways, SAlways => kind_in k [KBool; KInt; KFloat; KStr; KMap]
+  | (LIfNonZero | LMergeNonZero), SAlways => kind_in k [KInt; KFloat; KStr] || (kind_in k [KBool] && val_eqb d (VB false))
+  | (LIfNonZero | LMergeNonZero), SOmitIfDefault _ => kind_in k [KInt; KFloat; KStr]
+  | LPtrIfNonNil, SAlways => kind_in k [KBool; KInt; KFloat]
+  | (LDurIfNonEmpty | LDurIgnoreErr | LDurSoft _ | LDurZeroOnErr | LDurEmptyZero), SAlways => kind_in k [KDur]
+  | (LDurIfNonEmpty | LDurSoft _), SOmitIfDefault _ => kind_in k [KDur]
+  | (LParseAlways _ | LParseIfNonEmpty), SAlways => kind_in k [KTok]
+  | LEnum _, SAlways => kind_in k [KStr]
+  | _, _ => false end = true ->
+  well_typed k v = true -> wf_val v = true -> v <> VNone -> (is_boolk k || negb (is_zero v)) = true ->
+  apply_rule lr k pp d v = Some x -> x = v.
+Proof.
+  intros TD OK T W NN NZ A.
+  destruct lr; try discriminate OK; destruct sr; try discriminate OK; destruct k; simpl in OK; try discriminate OK;
+  case_val d; simpl in TD; try discriminate TD; simpl in OK; try discriminate OK;
+  case_val v; simpl in T; try discriminate T; simpl in W; try discriminate W; simpl in NZ; try discriminate NZ;
+  try congruence; simpl in A;
+  try (match type of A with context [if ?b then _ else _] => destruct b end);
+  try discriminate A; inversion A; reflexivity.
+Qed.
+
+Lemma rule_faithful_list lr d v x pp :
+  match lr with LAlways | LIfNonZero | LMergeNonZero | LParseListAlways | LParseListIfNonEmpty | LParseListSkipBad => true | _ => false end = true ->
+  well_typed KList v = true -> wf_val v = true -> v <> VNone -> negb (is_zero (canon_in v)) = true ->
+  apply_rule lr KList pp d v = Some x -> x = canon_in v.
+Proof.
+  intros OK T W NN NZ A.
+  case_val v; simpl in T; try discriminate T; try congruence; simpl in W, NZ; try discriminate NZ.
+  - (* VL (a :: l) *) destruct lr; try discriminate OK; simpl in A; inversion A; reflexivity.
+  - (* VTL l *) pose proof (wf_all_some _ W) as E. simpl.
+    match goal with |- _ = VL (keep_some ?l) => destruct (keep_some l) as [|a q] eqn:K; [discriminate NZ|] end.
+    destruct lr; try discriminate OK; simpl in A; rewrite ?E in A; simpl in A; rewrite ?K in A; inversion A; auto.
+Qed.
+
+Lemma rule_faithful_parent p inner r k v x pp :
+  pp p = true ->
+  match inner with LAlways => kind_in k [KBool; KInt; KFloat; KStr] | LDurIfNonEmpty => kind_in k [KDur] | _ => false end = true ->
+  well_typed k v = true -> wf_val v = true -> v <> VNone -> (is_boolk k || negb (is_zero v)) = true ->
+  apply_rule (LIfParent p inner r) k pp r v = Some x \/ True ->
+  forall d, apply_rule (LIfParent p inner r) k pp d v = Some x -> x = v.
+Proof.
+  intros PP OK T W NN NZ _ d A. simpl in A. rewrite PP in A.
+  destruct inner; try discriminate OK; destruct k; simpl in OK; try discriminate OK;
+  case_val v; simpl in T; try discriminate T; simpl in W; try discriminate W; simpl in NZ; try discriminate NZ;
+  try congruence; simpl in A; inversion A; reflexivity.
+Qed.
+
+Lemma canon_scalar k v : well_typed k v = true -> kind_in k [KList] = false -> canon_in v = v.
+Proof. intros T K. destruct v; auto. destruct k; simpl in *; discriminate. Qed.
+
+Lemma wf_not_bad v : wf_val v = true -> is_bad v = false.
+Proof. destruct v; simpl; auto. Qed.
+
+Theorem load_faithful_l S V orc j c f :
+  schema_coherentb S = true -> load S V orc j = Some c -> wf_doc S j = true ->
+  In f (sfields S) -> is_setting f j = true ->
+  cget S c (fname f) = canon_in (jval (fname f) j).
+Proof.
+  unfold load, apply_json. intros CO L WF Hf IS.
+  destruct (coherent_parts S CO) as [ND [FOK _]].
+  destruct (typed_ok S j); simpl in L; [|discriminate].
+  destruct (apply_fields (sfields S) (defaults S) j []) as [c0|] eqn:AF; [|discriminate].
+  destruct (V orc (cget S c0)); [|discriminate]. inversion L; subst c0. clear L.
+  unfold wf_doc in WF. rewrite forallb_forall in WF.
+  assert (NB : forall g, In g (sfields S) -> is_bad (jval (fname g) j) = false).
+  { intros g Hg. specialize (WF g Hg). apply andb_true_iff in WF. destruct WF as [W _]. now apply wf_not_bad. }
+  pose proof (apply_fields_exact _ _ _ NB AF) as F.
+  pose proof (cget_from_in _ _ _ ND F f Hf) as A. cbv beta in A. fold (cget S c (fname f)) in A.
+  specialize (WF f Hf). apply andb_true_iff in WF. destruct WF as [W T].
+  rewrite forallb_forall in FOK. specialize (FOK f Hf). unfold field_ok in FOK. apply andb_true_iff in FOK. destruct FOK as [TD M].
+  unfold is_setting in IS.
+  repeat (apply andb_true_iff in IS; let X := fresh "IS" in destruct IS as [IS X]).
+  rename IS0 into ISP, IS1 into ISZ, IS2 into ISN, IS3 into ISG, IS4 into ISC.
+  apply negb_true_iff in IS. apply negb_true_iff in ISC. apply negb_true_iff in ISG.
+  set (v := jval (fname f) j) in *. set (x := cget S c (fname f)) in *.
+  assert (NN : v <> VNone) by (intros E; rewrite E in ISN; discriminate ISN).
+  destruct (fload f) as [ | | | | | | g | | | eo | | | | | a | | | p inner reset | id ] eqn:EL;
+  destruct (fsave f) eqn:ES; try discriminate M; try discriminate IS; try discriminate ISC.
+  all: try (destruct inner; try discriminate M).
+  all: simpl in ISP.
+  all: destruct (fkind f) eqn:EK; simpl in M; try discriminate M; try discriminate ISG.
+  all: try (eapply rule_faithful_list; [ | exact T | exact W | exact NN | simpl in ISZ; exact ISZ | exact A ]; reflexivity).
+  all: try (rewrite (canon_scalar _ _ T) in ISZ by reflexivity).
+  all: try (rewrite (canon_scalar _ _ T) by reflexivity).
+  all: try (eapply (rule_faithful_parent p _ _ _ _ _ (fun q => jhas q j) ISP); [ | exact T | exact W | exact NN | exact ISZ | right; exact I | exact A ]; reflexivity).
+  all: try (match type of ES with _ = ?s => eapply (rule_faithful _ s) end;
+            [exact TD | | exact T | exact W | exact NN | exact ISZ | exact A]; simpl; try exact M; reflexivity).
+Qed.
+
+(* ---------------------------------------------------------------------------------------------- *)
+(* display *)
+Lemma display_field_in f v0 n v : In (n, v) (display_field f v0) ->
+  n = fname f /\ (fhidden f && top_level (fname f) = true -> v = hidden_marker).
+Proof. unfold display_field. destruct (fhidden f && top_level (fname f)) eqn:E.
+  - simpl. intros [H|[]]. inversion H. auto.
+  - destruct (fsave f); try (destruct (val_eqb v0 d)); simpl; intros [H|[]]; inversion H; split; auto; discriminate. Qed.
+
+Lemma display_fields_in fs : forall c n v, In (n, v) (display_fields fs c) ->
+  exists f, In f fs /\ fname f = n /\ (fhidden f && top_level (fname f) = true -> v = hidden_marker).
+Proof. induction fs as [|f r IH]; intros c n v; simpl; [tauto|]. destruct c as [|v0 cr]; simpl; [tauto|].
+  intros H. apply in_app_or in H. destruct H as [H|H].
+  - apply display_field_in in H. destruct H as [-> Hm]. exists f. auto.
+  - destruct (IH _ _ _ H) as [g [Hg [En Hm]]]. exists g. auto. Qed.
+
+Lemma nodup_same_name fs f g : NoDup (map fname fs) -> In f fs -> In g fs -> fname f = fname g -> f = g.
+Proof. induction fs as [|h r IH]; simpl; [tauto|]. intros ND Hf Hg E. inversion ND as [|? ? Hnin ND']; subst.
+  destruct Hf as [->|Hf], Hg as [->|Hg]; auto.
+  - exfalso. apply Hnin. rewrite E. now apply in_map.
+  - exfalso. apply Hnin. rewrite <- E. now apply in_map. Qed.
+
+Theorem display_hides_l S c n v :
+  schema_coherentb S = true -> In (n, v) (display S c) ->
+  existsb (fun f => String.eqb (fname f) n && fhidden f) (sfields S) = true -> v = hidden_marker.
+Proof. intros CO H Hh. destruct (coherent_parts S CO) as [ND [_ [_ HT]]].
+  apply display_fields_in in H. destruct H as [f [Hf [En Hm]]].
+  apply existsb_exists in Hh. destruct Hh as [g [Hg Eg]]. apply andb_true_iff in Eg. destruct Eg as [Eg Hid].
+  apply String.eqb_eq in Eg. assert (f = g) by (eapply nodup_same_name; eauto; congruence). subst g.
+  apply Hm. rewrite Hid. simpl. rewrite forallb_forall in HT. specialize (HT f Hf). rewrite Hid in HT. exact HT. Qed.
+
+(* ---------------------------------------------------------------------------------------------- *)
+(* load is exactly: well-typed document, every rule applies, Validate accepts *)
+Theorem load_spec_l S V orc j c :
+  load S V orc j = Some c <->
+  typed_ok S j = true /\ apply_fields (sfields S) (defaults S) j [] = Some c /\ V orc (cget S c) = true.
+Proof. unfold load, apply_json. split.
+  - destruct (typed_ok S j); simpl; [|discriminate]. destruct (apply_fields _ _ _ _) as [c0|]; [|discriminate].
+    destruct (V orc (cget S c0)) eqn:E; [|discriminate]. intros H. inversion H; subst. auto.
+  - intros [T [A Vv]]. rewrite T, A. simpl. now rewrite Vv. Qed.
+
+Theorem load_valid_l S V orc j c : load S V orc j = Some c -> V orc (cget S c) = true.
+Proof. intros H. apply load_spec_l in H. tauto. Qed.
+
+Theorem load_rejects_invalid_l S V orc j c :
+  typed_ok S j = true -> apply_fields (sfields S) (defaults S) j [] = Some c -> V orc (cget S c) = false -> load S V orc j = None.
+Proof. unfold load, apply_json. intros T A Vv. rewrite T, A. simpl. now rewrite Vv. Qed.
